@@ -83,6 +83,7 @@ def assemble_and_print(program: Program, settings: Settings) -> None:
 
             with open(path + ".ldata", "w", encoding="ascii") as f:
                 f.write(data)
+                f.write("\n")
         except OSError as e:
             print_error(settings, "could not write assembled output: {}".format(e))
             sys.exit(3)
